@@ -37,6 +37,12 @@ func main() {
 			usage()
 		}
 		os.Exit(check(os.Args[2], os.Args[3]))
+	case "check-all":
+		// Evaluation helper (seeded / benign variants): one load of the tree,
+		// the quick rules of every property, no evidence written. Prints one
+		// summary line per property and a final "ALARMS:" line.
+		os.Setenv("VERIF_NO_EVIDENCE", "1")
+		os.Exit(checkAll())
 	case "explain":
 		if len(os.Args) < 3 {
 			usage()
@@ -61,6 +67,13 @@ func main() {
 		}
 	case "dump-locks":
 		dumpLocks()
+	case "gen-ref":
+		p, err := core.Load(core.RepoDir(), nil, nil)
+		if err != nil {
+			fmt.Println(err)
+			os.Exit(1)
+		}
+		fmt.Print(p.GenRef())
 	case "gen-lemmas":
 		p, err := core.Load(core.RepoDir(), nil, nil)
 		if err != nil {
@@ -114,6 +127,37 @@ func main() {
 	default:
 		usage()
 	}
+}
+
+func checkAll() int {
+	p, err := core.Load(core.RepoDir(), nil, nil)
+	var alarms []string
+	for _, prop := range rules.Properties() {
+		start := time.Now()
+		spec := rules.Get(prop)
+		rep := core.NewReport(prop, "quick")
+		if err != nil {
+			rep.Fail("%v", err)
+		} else {
+			ctx := &rules.Ctx{Prog: p, Rep: rep, Tier: "quick", Primary: true}
+			func() {
+				defer func() {
+					if r := recover(); r != nil {
+						rep.Fail("analyzer panic: %v", r)
+					}
+				}()
+				spec.Run(ctx)
+			}()
+		}
+		if rep.Finish(verifDir(), spec.Explanation, []string{"default"}, start, nil) != 0 {
+			alarms = append(alarms, prop)
+		}
+	}
+	fmt.Println("ALARMS:", strings.Join(alarms, " "))
+	if len(alarms) > 0 {
+		return 1
+	}
+	return 0
 }
 
 func check(prop, tier string) int {
